@@ -465,7 +465,39 @@ def exp1(ctx, c):
     outs = Interp(sv.node).run()
     falls = [o for o in outs if o.kind == "fall"]
     rets = [o for o in outs if o.kind == "return"]
-    if falls and rets:
+    # decided by evaluating resolve for a table entry of each kind: a label, a number, anything else (a string, an unresolved expression)
+    from ..concrete import Obj as _Ob, ClsRef as _Cr, Desc as _Ds, run_concrete as _rcx
+    ev_kind = {}
+    ev_nt = []
+    for kind_ in ("address", "numeric", "other"):
+        ent = _Ob("Value", label="<%s entry>" % kind_)
+        ent.attrs.update({"int": 7, "kind": kind_})
+        hk = {("*", "is_address"): (lambda r, a: r.attrs.get("kind") == "address"), ("*", "is_numeric"): (lambda r, a: r.attrs.get("kind") == "numeric"),
+              ("self", "get_symbol"): (lambda a, _e=ent: _e)}
+        for pn in ("is_symbol", "is_expression", "is_address_expression", "is_string", "is_none"):
+            hk[("*", pn)] = (lambda r, a: False)
+        envs = dict(ctx.env)
+        for cn in ("AddressValue", "NumericValue", "DirectNumericValue", "ExtendedNumericValue"):
+            envs[cn] = _Cr(cn)
+        envs.update({"self.value": "SYM"})
+        evs_, nts_ = [], []
+        end_ = _rcx(body_without_doc(sv.node), envs, evs_, nts_, hooks=hk)
+        ev_nt += nts_
+        rv = envs.get("$return")
+        ev_kind[kind_] = ("raise" if (end_ or "").startswith("raise") else ("none" if (end_ is None or rv is None) else (rv.cls if isinstance(rv, _Ob) else "other")))
+    if not ev_nt:
+        good_ = ev_kind.get("address") == "AddressValue" and ev_kind.get("numeric", "").endswith("NumericValue") and ev_kind.get("other") == "raise"
+        if ev_kind.get("other") == "none":
+            c.finding("SymbolValue.resolve", "returns a value on some paths and None on others",
+                      "SymbolValue.resolve returns None when the table entry is neither an address nor numeric (save_symbol stores the raw EQU operand, which may be a string, a symbol or an "
+                      "expression): the None reaches the code package and the assembler ends in an AttributeError, also while printing the diagnostic", repo.loc(sv, sv.node))
+        elif not good_:
+            c.finding("SymbolValue.resolve", "label -> %s, number -> %s, anything else -> %s" % (ev_kind.get("address"), ev_kind.get("numeric"), ev_kind.get("other")),
+                      "SymbolValue.resolve must turn a label into an AddressValue, a number into a NumericValue and reject anything else; evaluated per kind it gives %s" % ev_kind,
+                      repo.loc(sv, sv.node))
+        else:
+            c.ok("SymbolValue.resolve", "label -> AddressValue, number -> NumericValue, anything else raises", repo.loc(sv, sv.node))
+    elif falls and rets:
         c.finding("SymbolValue.resolve", "returns a value on some paths and None on others",
                   "SymbolValue.resolve falls off the end when the table entry is neither an address nor numeric (save_symbol stores the raw EQU operand, which may be a symbol or an expression): "
                   "E EQU 5+1 / LDA #E ends in AttributeError", repo.loc(sv, sv.node))
